@@ -11,8 +11,9 @@ S5 the configured cache size is respected (None-check accessor; passed to the LR
 from __future__ import annotations
 
 import ast
+import re
 import itertools
-from typing import Any, Dict, List, Optional, Tuple
+from typing import Any, Dict, List, Optional, Set, Tuple
 
 from ..astq import assignments, calls, kwarg, params, stmts
 from ..callgraph import fkey
@@ -301,9 +302,69 @@ def s4(chk: Check, proj: Project) -> None:
     # the decision hit / miss is the cache's answer alone: the variable is not overwritten (e.g. reset to None because some
     # attribute of the cached object differs from an argument that is NOT part of the key) before it is tested
     redef = [st for st, v in assignments(f, got)] if got else []
+    # a reset to None that can only happen when an attribute of the cached object differs from a parameter that IS part of
+    # the key is dead code (the object was compiled from exactly that parameter): not a second definition
+    def _keyed_roots() -> Set[str]:
+        out: Set[str] = set()
+        kd = assignments(f, kvar)[0][1] if assignments(f, kvar) else None
+        todo = [kd] if kd is not None else []
+        seen_n: Set[str] = set()
+        while todo:
+            e = todo.pop()
+            for x in ast.walk(e):
+                if isinstance(x, ast.Name) and x.id not in seen_n:
+                    seen_n.add(x.id)
+                    if x.id in ps:
+                        out.add(x.id)
+                    for _s2, v2 in assignments(f, x.id):
+                        if v2 is not None:
+                            todo.append(v2)
+        return out
+
+    kr = _keyed_roots()
+    live_redef = [redef[0]] if redef else []
+    for st in redef[1:]:
+        dead = isinstance(getattr(st, "value", None), ast.Constant) and st.value.value is None
+        if dead:
+            for t, pol in cond_atoms(st):
+                mm_ = re.match(rf"^{re.escape(got)}\.(\w+) != (\w+)$", t)
+                if pol and mm_ and mm_.group(2) in kr and mm_.group(1) == mm_.group(2):
+                    continue
+                if pol and (t == f"{got} is not None" or re.match(r"^\w+ is not None$", t)):
+                    continue
+                dead = False
+            dead = dead and any(pol and re.match(rf"^{re.escape(got)}\.(\w+) != (\w+)$", t) for t, pol in cond_atoms(st))
+        if not dead:
+            live_redef.append(st)
+    redef = live_redef
     chk.ob("S4", "template:cached_template:hit-is-the-caches-answer", m.loc(redef[1]) if len(redef) > 1 else m.loc(g[0]), len(redef) == 1,
            f"`{got}` has a single definition, the cache lookup" if len(redef) == 1 else
            f"`{got}` is reassigned after the lookup (`{short(redef[1])}`): a repeated key that was never evicted is recompiled and the entry overwritten, so callers alternate between different Template objects")
+    # key completeness: every input of the memoised computation (the arguments of the constructor call on a miss) is an
+    # input of the key - otherwise a hit hands out a value computed for other inputs
+    ctor = [v for _s, v in hitv if isinstance(v, ast.Call) and norm(v.func) == "template_cls"]
+    if ctor and kdef is not None:
+        def roots(e: ast.AST, depth: int = 0) -> Set[str]:
+            out: Set[str] = set()
+            for x in ast.walk(e):
+                if isinstance(x, ast.Name) and isinstance(x.ctx, ast.Load):
+                    if x.id in ps:
+                        out.add(x.id)
+                    elif depth < 4:
+                        for _s2, v2 in assignments(f, x.id):
+                            if v2 is not None and v2 is not e:
+                                out |= roots(v2, depth + 1)
+            return out
+
+        used = set()
+        for a in list(ctor[0].args) + [k.value for k in ctor[0].keywords]:
+            used |= roots(a)
+        used |= roots(ctor[0].func)
+        keyed = roots(kdef)
+        missing = sorted(used - keyed)
+        chk.ob("S4", "template:cached_template:key-covers-every-input", m.loc(assignments(f, kvar)[0][0]), not missing,
+               f"every input of the compilation {sorted(used)} is an input of the key" if not missing else
+               f"the Template is compiled from {sorted(used)} but the key is computed from {sorted(keyed)} only: `{missing}` decide how relative {{% extends './x' %}} / {{% include %}} paths are resolved (and what error messages say), so a caller with the same source but another name gets the Template compiled for the first caller - rendering differs from compiling afresh")
     stv = norm(s_[0].args[1]) if len(s_[0].args) > 1 else None
     at = cond_atoms(enclosing_stmt(s_[0]))
     okm = stv == retn and any(pol and t == f"{got} is None" for t, pol in at)
